@@ -108,6 +108,10 @@ def _fixed_geoms():
         # regions below and above): bundle length != core length != z_top
         {'g': 'lo19', 'nr': 3, 'pd': 1.18, 'hd': 25.0, 'wf': 0.85,
          'slack': 0.08, 'n_duct': 1, 'lower': 0.12, 'upper': 0.85},
+        # bare rods that touch (P/D = 1, the lower end of the Cheng-Todreas
+        # range; the reader accepts it): no gap between pins
+        {'g': 'touch19', 'nr': 3, 'pd': 1.0, 'hd': 15.0, 'wf': 0.0,
+         'slack': 0.1, 'n_duct': 1},
     ]
 
 
@@ -728,9 +732,11 @@ class Monitor(object):
         self.check('MIX_nonneg_finite', ok,
                    '' if ok else 'mixing parameters negative or not finite: '
                    'eddy %r swirl %r' % (eddy, sw),
-                   {'mech': ('mix_value' if split_ok else
-                             'mix_nan_from_split_nan'), 'mix': mix,
-                    'hybrid': self.hybrid()},
+                   dict({'mech': ('mix_value' if split_ok else
+                                  'mix_nan_from_split_nan'), 'mix': mix,
+                         'hybrid': self.hybrid()},
+                        **({'touching_pins': True}
+                           if float(self.g.get('pd', 0.0)) == 1.0 else {})),
                    dict(self.data(), eddy=repr(eddy), swirl=sw))
         if ok:
             res.stat('eddy_value', float(eddy))
@@ -745,6 +751,8 @@ def _record_exception(res, mon, e, tb, stage):
     site, lineno = _site(tb)
     key = dict(mon.base_key(mon.ctx['re']), exc=type(e).__name__, site=site,
                fs_ct=mon.ctx['triple'][2] in CT)
+    if float(mon.g.get('pd', 0.0)) == 1.0:
+        key['touching_pins'] = True
     if isinstance(e, StopIteration):
         key['kink_band'] = mon.kink_band()
     mon.check('E_evaluable', False,
@@ -1012,6 +1020,9 @@ def classify(v, case):
             # approximation (a subchannel next to its own regime boundary)
             # escapes as StopIteration
             return 'F127'
+        if (exc == 'ZeroDivisionError' and k.get('touching_pins') is True
+                and site == 'mixing_mit.py:calculate_mixing_params'):
+            return 'F131'
         if (exc == 'StopIteration' and k.get('grid') in ('corr', 'loss_coeff')
                 and k.get('fs_ct') is True and k.get('kink_band') is False
                 and k.get('regime') == 'transition'
@@ -1050,6 +1061,9 @@ def classify(v, case):
             return 'F128'
         return None
     if mon == 'MIX_nonneg_finite':
+        if (k.get('touching_pins') is True and k.get('mix') == 'KC-BARE'
+                and k.get('mech') == 'mix_value'):
+            return 'F131'
         if (k.get('mech') == 'mix_nan_from_split_nan'
                 and k.get('hybrid') is True):
             return 'F128'
